@@ -13,7 +13,7 @@ PID = 'C07'
 LEVEL = 'exploration'
 BUDGET_S = {'quick': 45, 'thorough': 600}
 FLOORS = {'quick': {'schedules': 15000, 'contended_schedules': 8000, 'entries': 40000, 'timeouts_judged': 300,
-                    'reacquire_checks': 15000, 'stress_rounds': 10, 'stress_entries': 1000},
+                    'reacquire_checks': 15000, 'stress_rounds': 10, 'stress_entries': 1000, 'holder_killed_rounds': 20, 'reacquire_after_kill': 40},
           'thorough': {'schedules': 500000, 'contended_schedules': 250000, 'entries': 1000000,
                        'timeouts_judged': 10000, 'reacquire_checks': 500000}}
 RULE = ("case = one schedule of k contenders x c lock/unlock cycles on one lock path (FileLock keep-file, FileLock "
@@ -177,6 +177,8 @@ def gen_cases(run):
         yield c
     for i in range(run.pick(24, 400)):
         yield {'kind': 'stress', 'i': i}
+    for i in range(run.pick(48, 800)):
+        yield {'kind': 'holder_dies', 'i': i}
     reps = run.pick(200, 7000)
     for cfg in base_configs():
         for k in range(reps):
@@ -347,10 +349,91 @@ def run_stress(run, case):
         shutil.rmtree(d, ignore_errors=True)
 
 
+def run_holder_dies(run, case):
+    """a process is killed (SIGKILL) while it holds the lock: the kernel drops its flock, the lock file stays behind.
+    The lock is then free: another process must get it without waiting for a timeout, and get it again after unlocking.
+    Real processes, no scheduler; the only clock involved is the generous timeout of the second contender."""
+    import signal
+    import time
+    rng = run.rng('dies', case['i'])
+    kind = case.get('lock') or rng.choice(['remove', 'remove', 'keep', 'sem'])
+    n = rng.choice([1, 2]) if kind == 'sem' else 1
+    victims = n if kind == 'sem' else 1
+    where = rng.choice(['holding', 'holding', 'after_unlock_started'])
+    d = run.subdir('c07d')
+    try:
+        from mapproxy.util import lock as lockmod
+        path = os.path.join(d, 'sub', 'x.lck') if rng.random() < 0.3 else os.path.join(d, 'x.lck')
+        os.makedirs(os.path.dirname(path), exist_ok=True)
+
+        def mk(timeout):
+            if kind == 'sem':
+                return lockmod.SemLock(path, n, timeout=timeout, step=0.005)
+            return lockmod.FileLock(path, timeout=timeout, step=0.005, remove_on_unlock=(kind == 'remove'))
+        pids = []
+        for v in range(victims):
+            r, w = os.pipe()
+            pid = os.fork()
+            if pid == 0:
+                try:
+                    os.close(r)
+                    lk = mk(10.0)
+                    lk.lock()
+                    os.write(w, b'L')
+                    time.sleep(60)
+                finally:
+                    os._exit(3)
+            os.close(w)
+            got = os.read(r, 1)
+            os.close(r)
+            pids.append(pid)
+            if got != b'L':
+                run.dc('victim_did_not_get_the_lock')
+                for p_ in pids:
+                    try:
+                        os.kill(p_, signal.SIGKILL)
+                        os.waitpid(p_, 0)
+                    except Exception:
+                        pass
+                return
+        # while the victims live the lock is taken: a try-lock must fail (sanity of the setup, not judged)
+        probe = mk(0.0)
+        try:
+            probe.lock()
+            probe.unlock()
+            run.count('holder_dies_probe_got_lock_while_held')
+        except lockmod.LockTimeout:
+            pass
+        del probe
+        for p_ in pids:
+            os.kill(p_, signal.SIGKILL)
+            os.waitpid(p_, 0)
+        left = sorted(os.listdir(os.path.dirname(path)))
+        run.hit('holder_killed_rounds')
+        run.judge(('holder_dies', kind, n), nontrivial=True)
+        t0 = time.time()
+        for attempt in ('first', 'again'):
+            lk = mk(8.0)
+            try:
+                lk.lock()
+            except lockmod.LockTimeout:
+                run.violation({'problem': 'not_reacquirable', 'lock': kind, 'mode': 'holder_killed', 'attempt': attempt},
+                              case, 'the holder of the %s lock was killed with SIGKILL (files left behind: %r); a new contender '
+                              'timed out after %.1f s although nobody holds the lock (attempt: %s)' % (kind, left, time.time() - t0, attempt))
+                return
+            run.hit('reacquire_after_kill')
+            lk.unlock()
+            del lk
+    finally:
+        shutil.rmtree(d, ignore_errors=True)
+
+
 def run_case(run, case):
     global _BASE
     if case['kind'] == 'stress':
         return run_stress(run, case)
+    if case['kind'] == 'holder_dies':
+        return run_holder_dies(run, case)
     if _BASE is None:
         _BASE = run.subdir('c07')
     cfg = case['cfg']
